@@ -56,6 +56,9 @@ func TestC16Histories(t *testing.T) {
 				t.Fatalf("operation %d (%v) on the shared font returns something else than on a fresh copy of the same font:\n  after the history: %.300s\n  alone:             %.300s\nhistory:\n%s", j, o, got, alone, hist.String())
 			}
 		}
+		if d := packageDefaults(); d != packageDefaults0 {
+			t.Fatalf("the package-level default feature sets were modified by read-only operations on a font:\n  before: %s\n  after:  %s\nhistory:\n%s", packageDefaults0, d, hist.String())
+		}
 		if d := fontcmp.Diff(pristine, f); d != "" {
 			t.Fatalf("the shared font was modified by read-only operations: %s\nhistory:\n%s", d, hist.String())
 		}
